@@ -41,25 +41,37 @@ func TestWatchedRuleSetFileIsFollowed(t *testing.T) {
 		configMap := singleFile && rapid.IntRange(0, 2).Draw(t, "configMapLayout") == 1
 		generation := 0
 
-		publish := func(ver string) {
+		publish := func(ver string, atomically bool) {
 			generation++
 
 			d := filepath.Join(rules, fmt.Sprintf("..gen%d", generation))
 			_ = os.Mkdir(d, 0o755)
 			_ = os.WriteFile(filepath.Join(d, "src0.yaml"), []byte(ruleSetYAML(0, ver)), 0o600)
-			_ = os.Symlink(filepath.Base(d), filepath.Join(rules, "..data_tmp"))
+			if atomically {
+				_ = os.Symlink(filepath.Base(d), filepath.Join(rules, "..data_tmp"))
 
-			if err := os.Rename(filepath.Join(rules, "..data_tmp"), filepath.Join(rules, "..data")); err != nil {
-				t.Fatalf("harness: %v", err)
+				if err := os.Rename(filepath.Join(rules, "..data_tmp"), filepath.Join(rules, "..data")); err != nil {
+					t.Fatalf("harness: %v", err)
+				}
+			} else {
+				// in two steps (what a script does which knows nothing about renaming): for a moment the file leads nowhere
+				_ = os.Remove(filepath.Join(rules, "..data"))
+
+				time.Sleep(time.Duration(generation%3) * 10 * time.Millisecond)
+
+				if err := os.Symlink(filepath.Base(d), filepath.Join(rules, "..data")); err != nil {
+					t.Fatalf("harness: %v", err)
+				}
 			}
 
-			if generation > 1 {
+			// (the tidy way removes what the link pointed to before; the script just leaves it there)
+			if generation > 1 && atomically {
 				_ = os.RemoveAll(filepath.Join(rules, fmt.Sprintf("..gen%d", generation-1)))
 			}
 		}
 
 		if configMap {
-			publish("v1")
+			publish("v1", true)
 
 			if err = os.Symlink(filepath.Join("..data", "src0.yaml"), file); err != nil {
 				t.Fatalf("harness: %v", err)
@@ -124,14 +136,21 @@ func TestWatchedRuleSetFileIsFollowed(t *testing.T) {
 			if configMap {
 				op = "config map update"
 
-				publish(ver)
+				if rapid.IntRange(0, 2).Draw(t, "linkReplacedInTwoSteps") == 0 {
+					op = "config map update (link removed, then created again)"
+
+					publish(ver, false)
+					vkit.S.Label("real_watcher.config_map_link_replaced_in_two_steps")
+				} else {
+					publish(ver, true)
+				}
 
 				expected = ver
 				nt = true
 			}
 
 			switch op {
-			case "config map update":
+			case "config map update", "config map update (link removed, then created again)":
 			case "rewrite":
 				if !exists {
 					continue
